@@ -248,7 +248,8 @@ class Token:
         """
 
         if len(tokens) == 0:
-            raise IOError(f"Expected {token_type} but there are not enough token.")
+            # end of the text: nothing is left that could match (e.g. the labels of an empty last block without final newline)
+            return False
         if tokens[-1].token_type == token_type:
             return True
         return False
